@@ -183,7 +183,13 @@ TraceReimport ==
      /\ StateFrom(st)
   /\ UNCHANGED << now, height, bridge, bridgeDirty, acceptedLog, tip, curKey >>
 
-TNext0 == TraceReimport \/ TraceInitEv \/ TraceBegin \/ TraceEl \/ TraceVote \/ TraceVerify \/ TraceNewVoter \/ TraceAccept
+(* probe (C10): a relayer transaction signed by `signer` offered to the mempool at the committed state *)
+TraceProbe ==
+  /\ IsEvent("probe")
+  /\ B("probe") => (Ev.admitted = (Ev.signer = proposer))
+  /\ UNCHANGED << rvars, now, height, bridge, bridgeDirty, acceptedLog, tip, curKey >>
+
+TNext0 == TraceProbe \/ TraceReimport \/ TraceInitEv \/ TraceBegin \/ TraceEl \/ TraceVote \/ TraceVerify \/ TraceNewVoter \/ TraceAccept
           \/ TraceNonVoted \/ TraceOther \/ TraceEnd
 
 (* A transaction with several messages is all-or-nothing: `txbegin`, then one event per message that was executed (each with  *)
